@@ -193,7 +193,11 @@ def run_config(mon: Monitor, cfg, workdir: str) -> None:
     cy, cx = cfg["chunks"]
     chunks = {"YX": (cy, cx), "SYX": (cfg["band_chunk"], cy, cx), "YXS": (cy, cx, cfg["band_chunk"])}[layout]  # pixel-interleaved sources may be split along the sample axis too
     attrs = {} if nodata is None else {"nodata": nodata}
-    xx = xr.DataArray(da.from_array(data, chunks=chunks), dims=dims, coords=xr_coords(gb), attrs=attrs)
+    # what dask wraps may be Fortran ordered, a reversed / strided view or read-only (memory-mapped, frozen cache): same pixels, the oracle keeps `data`
+    form = cfg.get("array_form") or random.Random(cfg["data_seed"]).choice(gen.ARRAY_FORMS)
+    handed = gen.array_form(data.copy(), form)
+    mon.obs["sources|" + form] += 1
+    xx = xr.DataArray(da.from_array(handed, chunks=chunks), dims=dims, coords=xr_coords(gb), attrs=attrs)
     kw = dict(compression=cfg["compression"], stats=cfg["stats"], bigtiff=cfg["bigtiff"], **(cfg.get("comp_kw") or {}))
     if cfg["blocksize"] is not None:
         kw["blocksize"] = [tuple(b) if isinstance(b, (list, tuple)) else b for b in cfg["blocksize"]]
